@@ -9,6 +9,8 @@ def pick(rnd, xs):
 def gen_target(rnd, kinds=("gauss", "bimodal", "expedge", "corr"), d=None, blobs=None, hole=None):
     k = pick(rnd, list(kinds))
     d = d or pick(rnd, [1, 2, 2, 3])
+    if d == 3 and rnd.random() < 0.25 and k != "corr":
+        d = pick(rnd, [5, 6, 8])  # a few higher-dimensional problems (code paths that depend on n_dim: default step counts, proposal scale 2.38/sqrt(d), covariance conditioning)
     if k == "gauss":
         s = T.spec_gauss(d=d, mu=round(rnd.uniform(-0.4, 0.4), 3), sig=round(rnd.uniform(0.05, 0.3), 3))
     elif k == "bimodal":
@@ -37,10 +39,12 @@ def gen_target(rnd, kinds=("gauss", "bimodal", "expedge", "corr"), d=None, blobs
 def gen_cfg(rnd, d, *, clustering=None, kernels=("tpcn", "rwm"), resamplers=("mult", "syst"), vv=True, small=True,
             cluster_every=(1,), n_max_clusters=(None,), boundaries=False):
     n = pick(rnd, [8, 16, 24, 25, 30, 32] if small else [32, 64, 128])
+    if rnd.random() < 0.03:
+        n = pick(rnd, [500, 512, 777])  # far above any internal block size / threshold
     n = max(n, 4 * d)
     cfg = dict(
         n_particles=n,
-        ess_ratio=pick(rnd, [1.0, 2.0, 2.0, 3.0, 0.7, 1.5, 2.3]),  # incl. targets ess_ratio*n_particles that are not integers
+        ess_ratio=pick(rnd, [1.0, 2.0, 2.0, 3.0, 0.7, 1.5, 2.3, 0.4, 5.0]),  # incl. targets ess_ratio*n_particles that are not integers
         sample=pick(rnd, list(kernels)),
         resample=pick(rnd, list(resamplers)),
         clustering=rnd.random() < 0.4 if clustering is None else clustering,
@@ -51,13 +55,13 @@ def gen_cfg(rnd, d, *, clustering=None, kernels=("tpcn", "rwm"), resamplers=("mu
         cfg["normalize"] = rnd.random() < 0.7
         cfg["cluster_every"] = pick(rnd, list(cluster_every))
         cfg["n_max_clusters"] = pick(rnd, list(n_max_clusters))
-        cfg["split_threshold"] = pick(rnd, [0.5, 1.0, 1.0, 2.0])
+        cfg["split_threshold"] = pick(rnd, [0.5, 1.0, 1.0, 2.0, 0.1, 5.0])
     if vv and rnd.random() < 0.25:
         cfg["volume_variation"] = pick(rnd, [0.05, 0.1, 0.25, 1.0])
     if rnd.random() < 0.3:
-        cfg["n_steps"] = pick(rnd, [1, 2, 3])
+        cfg["n_steps"] = pick(rnd, [1, 2, 3, 7])
     if rnd.random() < 0.3:
-        cfg["n_max_steps"] = pick(rnd, [1, 5, 10])
+        cfg["n_max_steps"] = pick(rnd, [1, 5, 10, 40])
     if boundaries and rnd.random() < 0.08:
         cfg["periodic"], cfg["reflective"] = [], []  # empty lists are valid and mean "no special coordinate"
     elif boundaries and d >= 1 and rnd.random() < 0.5:
